@@ -10,7 +10,8 @@ S = os.path.join(ROOT, 'seeded')
 WAVES = {'a': 'first wave', 'b': 'second wave (avoid the obvious mutation)', 'c': 'third wave (told a competent harness exists)',
          'd': 'fourth wave (plain wording again, checks frozen during evaluation)',
          'e': 'fifth wave (audit of the unmodified code plus changes in dimensions a harness author would not think of)',
-         'f': 'sixth wave (review of the 26 repairs and a second audit, then two changes)'}
+         'f': 'sixth wave (review of the 26 repairs and a second audit, then two changes)',
+         'g': 'seventh wave (review of the six newest repairs and a third audit, then two changes)'}
 
 
 NOTES = {'C06-d1': 'at its first evaluation it was reported through the rule `negotiated-but-not-compressed`, which was then removed as '
